@@ -58,12 +58,20 @@ def shards(tier, seed):
         k = load.index(min(load))
         buckets[k].append([alg, N])
         load[k] += N ** 3 + 20000
-    return [{"jobs": b} for b in buckets if b]
+    out = [{"jobs": b} for b in buckets if b]
+    if tier == "thorough":
+        out.append({"kind": "repo_tests", "modules": ["tests/test_voronoi.py", "tests/test_rotobj.py", "tests/test_utils.py"], "jobs": []})
+    return out
 
 
 def run_shard(spec):
     from molgri.space.rotobj import SphereGrid3DFactory
     geom3.install()
+    if spec.get("kind") == "repo_tests":
+        from vlib import repo_tests, geom4
+        from vlib.props import c07, c15
+        c07.install(); c15.install(); geom4.install(max_n=13)
+        return repo_tests.run(spec["modules"])
     for k, (alg, N) in enumerate(spec["jobs"]):
         drive(SphereGrid3DFactory, alg, N, order=k + spec.get("seed", 0))
 
